@@ -140,6 +140,7 @@ func (x *X) callValue(fr *Frame, st *State, fv SV, args []SV, sig *types.Signatu
 		}
 		x.enc.assumption("callbacks of protocol type (predOutcome/resultStatus, error) satisfy E1/E2 (every function of that type in package exec is verified against them)")
 	}
+	x.atDynAsserts(fr, st, dynName(cc), sig, args, cc.Pos())
 	x.afterCallGhost(st, "param."+dynName(cc), sig, args, rets, nil)
 	return rets
 }
@@ -806,6 +807,17 @@ func protocolKind(sig *types.Signature) string {
 
 // atCallAsserts: clauses "atcall f assert e" of the function under verification.
 func (x *X) atCallAsserts(fr *Frame, st *State, callee *ssa.Function, args []SV, pos token.Pos) {
+	x.atAsserts(fr, st, callee, "", nil, args, pos)
+}
+
+// atDynAsserts: "atcall <variable> assert e" for a call through the function
+// value held in that variable; the arguments are arg_<param name> after the
+// signature of the function type, or arg_0, arg_1, … when it names none.
+func (x *X) atDynAsserts(fr *Frame, st *State, name string, sig *types.Signature, args []SV, pos token.Pos) {
+	x.atAsserts(fr, st, nil, name, sig, args, pos)
+}
+
+func (x *X) atAsserts(fr *Frame, st *State, callee *ssa.Function, dynName string, dynSig *types.Signature, args []SV, pos token.Pos) {
 	if x.topC == nil || x.pure > 0 || fr == nil {
 		return
 	}
@@ -814,13 +826,29 @@ func (x *X) atCallAsserts(fr *Frame, st *State, callee *ssa.Function, args []SV,
 		top = top.parent
 	}
 	for _, cl0 := range x.topC.AtCalls {
-		if cl0.Callee != callee.Name() && !(callee.Pkg != nil && cl0.Callee == callee.Pkg.Pkg.Name()+"."+callee.Name()) {
+		if callee != nil {
+			if cl0.Callee != callee.Name() && !(callee.Pkg != nil && cl0.Callee == callee.Pkg.Pkg.Name()+"."+callee.Name()) {
+				continue
+			}
+		} else if cl0.Callee != dynName {
 			continue
 		}
 		cl := siteClause(cl0, pos)
 		extra := map[string]types.Type{}
 		vars := map[string]SV{}
-		if len(callee.Params) > 0 {
+		if callee == nil {
+			for j := 0; j < dynSig.Params().Len(); j++ {
+				pv := dynSig.Params().At(j)
+				n := pv.Name()
+				if n == "" || n == "_" {
+					n = fmt.Sprint(j)
+				}
+				extra["arg_"+n] = pv.Type()
+				if j < len(args) {
+					vars["arg_"+n] = args[j]
+				}
+			}
+		} else if len(callee.Params) > 0 {
 			for i, p := range callee.Params {
 				extra["arg_"+p.Name()] = p.Type()
 				if i < len(args) {
